@@ -214,7 +214,89 @@ class Crate:
             return None
         return fs[0]
 
+    # ---- renamed / moved functions --------------------------------------------------------------------------------------
+    # rules/anchors_ref.json holds, for every non-test function of the reference tree (the tree the rules were confirmed on), a
+    # fingerprint of its body: the names it calls, the fields it reads, the variants and string literals it mentions. When a rule
+    # asks for a function by a path that no longer exists, the function that took its place is looked for among the functions
+    # whose path did not exist in the reference tree: the one whose fingerprint is closest, if it is close (Jaccard >= 0.6) and
+    # clearly closer than the runner-up. That is a rename or a move; anything less certain stays "not found" (fail closed).
+    def fingerprint(self, f):
+        toks = set()
+        stack = [f.get("body")]
+        while stack:
+            n = stack.pop()
+            if isinstance(n, list):
+                stack.extend(n)
+                continue
+            if not isinstance(n, dict):
+                continue
+            k = n.get("k")
+            if k in ("call", "mcall") and n.get("name"):
+                toks.add("c:" + str(n["name"]))
+            elif k == "field" and n.get("name"):
+                toks.add("f:" + str(n["name"]))
+            elif k == "lit" and n.get("lk") == "str" and isinstance(n.get("v"), str) and len(n["v"]) < 60:
+                toks.add("s:" + n["v"])
+            if n.get("variant"):
+                toks.add("v:" + str(n["variant"]))
+            for key, v in n.items():
+                if key not in ("ty", "sp") and isinstance(v, (dict, list)):
+                    stack.append(v)
+        toks.add("p:%d" % len(f.get("params") or []))
+        return sorted(toks)
+
+    def _ref(self):
+        if not hasattr(self, "_ref_cache"):
+            p = os.path.join(VERIF, "rules", "anchors_ref.json")
+            self._ref_cache = {}
+            if os.path.exists(p):
+                with open(p) as fh:
+                    self._ref_cache = json.load(fh).get(self.file.split("--")[0], {})
+        return self._ref_cache
+
+    def renamed_from(self, f):
+        """Reference path of a function of the current tree that is a rename / move of a reference-tree function (else its own path)."""
+        self._match_renames()
+        return self._new_to_old.get(f["path"], f["path"])
+
+    def _match_renames(self):
+        if hasattr(self, "_old_to_new"):
+            return
+        self._old_to_new, self._new_to_old = {}, {}
+        ref = self._ref()
+        if not ref:
+            return
+        cur = {f["path"]: f for f in self.fns if "::tests::" not in f["path"] and "::test::" not in f["path"] and f.get("body")}
+        gone = [p for p in ref if p not in cur and self._LT.sub("'_", p) not in {self._LT.sub("'_", q) for q in cur}]
+        new = [p for p in cur if p not in ref and "{" not in p]
+        if not gone or not new:
+            return
+        fps = {p: set(self.fingerprint(cur[p])) for p in new}
+        pairs = []
+        for g in gone:
+            a = set(ref[g])
+            if len(a) < 3:
+                continue
+            scored = sorted(((len(a & fps[p]) / float(len(a | fps[p]) or 1), p) for p in new), reverse=True)
+            if scored and scored[0][0] >= 0.6 and (len(scored) == 1 or scored[0][0] - scored[1][0] >= 0.1):
+                pairs.append((scored[0][0], g, scored[0][1]))
+        for s, g, p in sorted(pairs, reverse=True):
+            if g not in self._old_to_new and p not in self._new_to_old:
+                self._old_to_new[g] = p
+                self._new_to_old[p] = g
+
+    def _renamed_fn(self, path):
+        self._match_renames()
+        p = self._old_to_new.get(path)
+        return self._by_path.get(p) if p else None
+
     def _moved_fn(self, path):
+        r = self._renamed_fn(path)
+        if r:
+            return r
+        return self._moved_unique(path)
+
+    def _moved_unique(self, path):
         """A *free* function that was moved to another module of the same crate keeps its identity when its name is unique among
         the crate's free functions (outside test modules). Methods are addressed through their type, which has its own rule."""
         if "<" in path or path.count("::") < 2:
